@@ -34,3 +34,20 @@ package pod
 //@ func HasPodSchedulerIssue
 //@   requires pod != nil
 //@   modifies nothing
+//@
+//@ func HighestRestartCount
+//@   pure
+//@   trusted
+//@   reads nothing
+//@ func MostRecentRestart
+//@   pure
+//@   trusted
+//@   reads nothing
+//@ func CannotStart
+//@   pure
+//@   trusted
+//@   reads nothing
+//@ func PendingCreate
+//@   pure
+//@   trusted
+//@   reads nothing
